@@ -8,6 +8,7 @@
 #include "c20_values.inc"
 #include "c20_ipf.inc"
 #include "c20_traits.inc"
+#include "c20_ctor.inc"
 
 using namespace c20;
 
@@ -28,7 +29,20 @@ static std::vector<std::vector<i64>> read_lists(Toks& in)
     return r;
 }
 
-bool vh::run_case(std::string const& op, Toks& in, Out& impl, Out& ref)
+// The op table is split into groups so that props/C20/pcxx.py can compile them as separate translation units in
+// parallel (-DC20_NPARTS=6 -DC20_PART=k; one single TU takes ~1 minute).  Without -DC20_NPARTS everything is one
+// translation unit.
+namespace c20 {
+bool run_part0(std::string const& op, Toks& in, Out& impl, Out& ref);
+bool run_part1(std::string const& op, Toks& in, Out& impl, Out& ref);
+bool run_part2(std::string const& op, Toks& in, Out& impl, Out& ref);
+bool run_part3(std::string const& op, Toks& in, Out& impl, Out& ref);
+bool run_part4(std::string const& op, Toks& in, Out& impl, Out& ref);
+bool run_part5(std::string const& op, Toks& in, Out& impl, Out& ref);
+} // namespace c20
+
+#if !defined(C20_NPARTS) || C20_PART == 0
+bool c20::run_part0(std::string const& op, Toks& in, Out& impl, Out& ref)
 {
     auto i = [&] { return static_cast<int>(in.num()); };
     if (op == "get") {
@@ -90,6 +104,58 @@ bool vh::run_case(std::string const& op, Toks& in, Out& impl, Out& ref)
         op_ipfcall<StdLib>(sk, ac, ref);
         return true;
     }
+    if (op == "voidret") {
+        auto x = in.num();
+        op_voidret<EtlLib>(x, impl);
+        op_voidret<StdLib>(x, ref);
+        return true;
+    }
+    if (op == "makepairref") {
+        auto x = in.num(), y = in.num();
+        op_makepairref<EtlLib>(x, y, impl);
+        op_makepairref<StdLib>(x, y, ref);
+        return true;
+    }
+    if (op == "sbind") {
+        op_sbind<EtlLib>(impl);
+        op_sbind<StdLib>(ref);
+        return true;
+    }
+    if (op == "getbytype") {
+        op_getbytype<EtlLib>(impl);
+        op_getbytype<StdLib>(ref);
+        return true;
+    }
+    if (op == "retref") {
+        int which = i();
+        op_retref<EtlLib>(which, impl);
+        op_retref<StdLib>(which, ref);
+        return true;
+    }
+    if (op == "refwrapops") {
+        auto x = in.num(), y = in.num();
+        op_refwrapops<EtlLib>(x, y, impl);
+        op_refwrapops<StdLib>(x, y, ref);
+        return true;
+    }
+    if (op == "frefops") {
+        op_frefops(in.num(), impl);
+        return true; // no std::function_ref in libstdc++ 12
+    }
+    if (op == "notfnstatic") {
+        auto x = in.num();
+        op_notfn_static<EtlLib>(x, impl);
+        op_notfn_static<StdLib>(x, ref);
+        return true;
+    }
+    return false;
+}
+#endif
+
+#if !defined(C20_NPARTS) || C20_PART == 1
+bool c20::run_part1(std::string const& op, Toks& in, Out& impl, Out& ref)
+{
+    auto i = [&] { return static_cast<int>(in.num()); };
     if (op == "bindfront") {
         int wc = i(), bk = i(), ac = i();
         op_bindfront<EtlLib>(wc, bk, ac, impl);
@@ -121,6 +187,14 @@ bool vh::run_case(std::string const& op, Toks& in, Out& impl, Out& ref)
         op_applyp<StdLib>(tc, which, ref);
         return true;
     }
+    return false;
+}
+#endif
+
+#if !defined(C20_NPARTS) || C20_PART == 2
+bool c20::run_part2(std::string const& op, Toks& in, Out& impl, Out& ref)
+{
+    auto i = [&] { return static_cast<int>(in.num()); };
     if (op == "catx") {
         auto spec = in.list();
         op_catx<EtlLib>(spec, impl);
@@ -144,6 +218,60 @@ bool vh::run_case(std::string const& op, Toks& in, Out& impl, Out& ref)
         op_passign<StdLib>(dk, sk, sc, ref);
         return true;
     }
+    if (op == "ptraits") {
+        int e1 = i(), e2 = i();
+        op_ptraits<EtlLib>(e1, e2, impl);
+        op_ptraits<StdLib>(e1, e2, ref);
+        return true;
+    }
+    if (op == "ttraits") {
+        int n = i();
+        int e1 = n >= 1 ? i() : 0, e2 = n >= 2 ? i() : 0, e3 = n >= 3 ? i() : 0;
+        if (n < 0 || n > 3 || (n == 3 && e3 != 0 && e3 != 2 && e3 != 5)) { return false; }
+        op_ttraits<EtlLib>(n, e1, e2, e3, impl);
+        op_ttraits<StdLib>(n, e1, e2, e3, ref);
+        return true;
+    }
+    return false;
+}
+#endif
+
+#if !defined(C20_NPARTS) || C20_PART == 3
+bool c20::run_part3(std::string const& op, Toks& in, Out& impl, Out& ref)
+{
+    auto i = [&] { return static_cast<int>(in.num()); };
+    if (op == "pctor") {
+        int k = i(), a = i();
+        op_pctor<EtlLib>(k, a, impl);
+        op_pctor<StdLib>(k, a, ref);
+        return true;
+    }
+    if (op == "pconv") {
+        int dk = i(), sk = i(), sc = i();
+        op_pconv<EtlLib>(dk, sk, sc, impl);
+        op_pconv<StdLib>(dk, sk, sc, ref);
+        return true;
+    }
+    if (op == "tctor") {
+        auto spec = in.list();
+        op_tctor<EtlLib>(spec, impl);
+        op_tctor<StdLib>(spec, ref);
+        return true;
+    }
+    if (op == "mk") {
+        int which = i(), a = i();
+        op_mk<EtlLib>(which, a, impl);
+        op_mk<StdLib>(which, a, ref);
+        return true;
+    }
+    return false;
+}
+#endif
+
+#if !defined(C20_NPARTS) || C20_PART == 4
+bool c20::run_part4(std::string const& op, Toks& in, Out& impl, Out& ref)
+{
+    auto i = [&] { return static_cast<int>(in.num()); };
     if (op == "prel" || op == "pops") {
         auto a1 = in.num(), a2 = in.num(), b1 = in.num(), b2 = in.num();
         if (op == "prel") {
@@ -199,64 +327,14 @@ bool vh::run_case(std::string const& op, Toks& in, Out& impl, Out& ref)
         op_tcatmix<StdLib>(v, ref);
         return true;
     }
-    if (op == "ptraits") {
-        int e1 = i(), e2 = i();
-        op_ptraits<EtlLib>(e1, e2, impl);
-        op_ptraits<StdLib>(e1, e2, ref);
-        return true;
-    }
-    if (op == "ttraits") {
-        int n = i();
-        int e1 = n >= 1 ? i() : 0, e2 = n >= 2 ? i() : 0, e3 = n >= 3 ? i() : 0;
-        if (n < 0 || n > 3 || (n == 3 && e3 != 0 && e3 != 2 && e3 != 5)) { return false; }
-        op_ttraits<EtlLib>(n, e1, e2, e3, impl);
-        op_ttraits<StdLib>(n, e1, e2, e3, ref);
-        return true;
-    }
-    if (op == "voidret") {
-        auto x = in.num();
-        op_voidret<EtlLib>(x, impl);
-        op_voidret<StdLib>(x, ref);
-        return true;
-    }
-    if (op == "makepairref") {
-        auto x = in.num(), y = in.num();
-        op_makepairref<EtlLib>(x, y, impl);
-        op_makepairref<StdLib>(x, y, ref);
-        return true;
-    }
-    if (op == "sbind") {
-        op_sbind<EtlLib>(impl);
-        op_sbind<StdLib>(ref);
-        return true;
-    }
-    if (op == "getbytype") {
-        op_getbytype<EtlLib>(impl);
-        op_getbytype<StdLib>(ref);
-        return true;
-    }
-    if (op == "retref") {
-        int which = i();
-        op_retref<EtlLib>(which, impl);
-        op_retref<StdLib>(which, ref);
-        return true;
-    }
-    if (op == "refwrapops") {
-        auto x = in.num(), y = in.num();
-        op_refwrapops<EtlLib>(x, y, impl);
-        op_refwrapops<StdLib>(x, y, ref);
-        return true;
-    }
-    if (op == "frefops") {
-        op_frefops(in.num(), impl);
-        return true; // no std::function_ref in libstdc++ 12
-    }
-    if (op == "notfnstatic") {
-        auto x = in.num();
-        op_notfn_static<EtlLib>(x, impl);
-        op_notfn_static<StdLib>(x, ref);
-        return true;
-    }
+    return false;
+}
+#endif
+
+#if !defined(C20_NPARTS) || C20_PART == 5
+bool c20::run_part5(std::string const& op, Toks& in, Out& impl, Out& ref)
+{
+    auto i = [&] { return static_cast<int>(in.num()); };
     if (op == "ipfsizes") {
         op_ipfsizes<EtlFn>(impl);
         op_ipfsizes<StdFn>(ref);
@@ -270,5 +348,18 @@ bool vh::run_case(std::string const& op, Toks& in, Out& impl, Out& ref)
     }
     return false;
 }
+#endif
+
+#if !defined(C20_NPARTS) || C20_PART == 0
+bool vh::run_case(std::string const& op, Toks& in, Out& impl, Out& ref)
+{
+    return c20::run_part0(op, in, impl, ref)
+        || c20::run_part1(op, in, impl, ref)
+        || c20::run_part2(op, in, impl, ref)
+        || c20::run_part3(op, in, impl, ref)
+        || c20::run_part4(op, in, impl, ref)
+        || c20::run_part5(op, in, impl, ref);
+}
 
 VERIF_MAIN()
+#endif
